@@ -81,6 +81,10 @@ pub struct ReaderPlan {
     /// Short-read knob (0 = unlimited).
     #[serde(default)]
     pub max_chunk: usize,
+    /// The drained source reports `Err(UnexpectedEof)` with a payload instead of `Ok(0)`:
+    /// the reader must report end-of-data all the same.
+    #[serde(default)]
+    pub eof_error: bool,
     pub note: String,
     pub tables: Vec<Vec<TEntry>>,
     pub ops: Vec<Op>,
@@ -486,6 +490,10 @@ pub fn exec_reader_plan(plan: &ReaderPlan, st: &mut Stats) -> Option<Violation> 
     if plan.max_chunk > 0 {
         pipe.lock().unwrap().max_chunk = plan.max_chunk;
     }
+    if plan.eof_error {
+        pipe.lock().unwrap().eof_as_error = true;
+        ctx.st.inc("probe.source_reports_its_end_as_an_error");
+    }
     let r = guarded(|| {
         ctx.run(&mut reader, &plan.ops, false, false);
     });
@@ -689,7 +697,7 @@ fn sweep_plan(phase: u32, src: Vec<u8>, note: &str) -> ReaderPlan {
     }
     ops.push(Op::StartCode { in_error: false });
     ops.push(Op::StartCode { in_error: true });
-    ReaderPlan { max_chunk: 0, note: format!("sweep: phase {phase}, {note}"), tables: vec![], ops }
+    ReaderPlan { max_chunk: 0, eof_error: false, note: format!("sweep: phase {phase}, {note}"), tables: vec![], ops }
 }
 
 impl Property for C14 {
@@ -697,7 +705,7 @@ impl Property for C14 {
     const ID: &'static str = "C14";
     const JUDGES_CRASHES: bool = true;
     const LEVEL: &'static str = "exploration";
-    const RULE: &'static str = "seeded operation histories (up to 64 operations: peek/read/signed/skip at widths 0..=66 into 7 integer types, read_u8, read_vlc over generated prefix-free tables, recognize_start_code, commit, nested with_transaction / with_transaction_union / with_lookahead ending Ok/Err/None with and without `?` propagation) over sources of 0..48 bytes (planted start codes at all bit phases, zero and 0xFF runs) delivered in pieces during the run (one history in 1000: a source of 66-136 KB, beginning with look-aheads / failing transactions that buffer more than 64 KiB or consume more than 4 KiB), with EINTR and hard I/O errors armed on source reads; plus (a) a systematic sweep of every start phase x every operation x every width 0..=66 x seven types and (b) a small-scope ENUMERATION of every sequence of 2 (quick) / 3 (thorough) operations from a 14-operation alphabet at all 8 start phases over 3 short sources, each on a fresh reader. evaluations = reader operations executed and compared with the bit-vector model. A history is non-trivial if it contains at least one rollback (failed transaction, None union, look-ahead) followed by a successful read of >= 1 bit; distinct by operation sequence.";
+    const RULE: &'static str = "seeded operation histories (up to 64 operations: peek/read/signed/skip at widths 0..=66 into 7 integer types, read_u8, read_vlc over generated prefix-free tables, recognize_start_code, commit, nested with_transaction / with_transaction_union / with_lookahead ending Ok/Err/None with and without `?` propagation) over sources of 0..48 bytes (planted start codes at all bit phases, zero and 0xFF runs) delivered in pieces during the run (one history in 1000: a source of 66-136 KB, beginning with look-aheads / failing transactions that buffer more than 64 KiB or consume more than 4 KiB), with EINTR and hard I/O errors armed on source reads, one source in six reporting its end as an UnexpectedEof error with a payload instead of Ok(0); plus (a) a systematic sweep of every start phase x every operation x every width 0..=66 x seven types and (b) a small-scope ENUMERATION of every sequence of 2 (quick) / 3 (thorough) operations from a 14-operation alphabet at all 8 start phases over 3 short sources, each on a fresh reader. evaluations = reader operations executed and compared with the bit-vector model. A history is non-trivial if it contains at least one rollback (failed transaction, None union, look-ahead) followed by a successful read of >= 1 bit; distinct by operation sequence.";
     fn runs(tier: Tier) -> u64 {
         match tier {
             Tier::Quick => 300_000,
@@ -748,7 +756,7 @@ impl Property for C14 {
             let more = gen_ops(rng, &mut budget, 0, ntables, true, &mut src);
             ops.extend(more);
         }
-        ReaderPlan { max_chunk: *rng.pick(&[0usize, 0, 1, 2, 3]), note: format!("{} source bytes, {} tables", nsrc, ntables), tables, ops }
+        ReaderPlan { max_chunk: *rng.pick(&[0usize, 0, 1, 2, 3]), note: format!("{} source bytes, {} tables", nsrc, ntables), tables, ops, eof_error: rng.chance(1, 6) }
     }
     fn execute(plan: &ReaderPlan, st: &mut Stats) -> Option<Violation> {
         st.sample(|| json!({"note": plan.note, "ops": plan.ops.iter().take(12).collect::<Vec<_>>()}));
@@ -809,6 +817,7 @@ impl Property for C14 {
     }
     fn probe_names() -> Vec<&'static str> {
         vec![
+            "source_reports_its_end_as_an_error",
             "read_straddling_end_of_data",
             "zero_bit_read",
             "failed_transaction_rolled_back",
@@ -872,7 +881,7 @@ impl Property for C14 {
                     // a final verifying read shows where the reader ended up
                     ops.push(Op::Peek { ty: Ty::U16, n: 16 });
                     ops.push(Op::Read { ty: Ty::U8, n: 2 });
-                    v.push(ReaderPlan { max_chunk: 0, note: format!("enumeration: source {si}, phase {phase}, sequence #{code}"), tables: vec![], ops });
+                    v.push(ReaderPlan { max_chunk: 0, eof_error: false, note: format!("enumeration: source {si}, phase {phase}, sequence #{code}"), tables: vec![], ops });
                 }
             }
         }
